@@ -289,10 +289,15 @@ def get_ast_term(t):
     from data import interval
     from data import string
 
+    def is_std_binary(t):
+        """Whether t is the binary numeral that the parser produces for its
+        value (no leading zero bits: bit0 (bit1 zero) also has value 2)."""
+        return t.is_binary() and t == term.Binary(t.dest_binary())
+
     def is_nat_numeral(t):
         """Whether t is printed as a numeral (0, 1, or of_nat applied to a binary number >= 2)."""
         return t.is_zero() or t.is_one() or \
-            (t.is_comb('of_nat', 1) and t.arg.is_binary() and t.arg.dest_binary() >= 2)
+            (t.is_comb('of_nat', 1) and is_std_binary(t.arg) and t.arg.dest_binary() >= 2)
 
     def get_priority_pair(t):
         """Obtain the binding priority of the top-most operation of t."""
@@ -367,9 +372,11 @@ def get_ast_term(t):
                 return Set([helper(item, bd_vars) for item in items], t.get_type())
 
         # Chars and Strings
-        elif string.is_char(t) and re.fullmatch(r"[_A-Za-z0-9]", string.dest_char(t)):
+        elif string.is_char(t) and is_std_binary(t.arg) and \
+             re.fullmatch(r"[_A-Za-z0-9]", string.dest_char(t)):
             return Char(string.dest_char(t))
-        elif string.is_string(t) and re.fullmatch(r"[_A-Za-z][_A-Za-z0-9]*", string.dest_string(t)):
+        elif string.is_string(t) and all(is_std_binary(c.arg) for c in list.dest_literal_list(t.arg)) and \
+             re.fullmatch(r"[_A-Za-z][_A-Za-z0-9]*", string.dest_string(t)):
             return String(string.dest_string(t))
 
         # Intervals
